@@ -71,6 +71,9 @@ Fn(name) ==
     [] name = "isbool" -> Fun("M3", <<"x">>, InstOf(X, "xs:boolean"))                    \* a boolean key
     [] name = "tag" -> Fun("M4", <<"x">>, If(InstOf(X, "xs:integer"), Lit(1), If(InstOf(X, "xs:decimal"), Lit(2),
                                              If(InstOf(X, "xs:double"), Lit(3), Lit(4)))))
+    (* keys for the collation machine *)
+    [] name = "ident" -> Fun("C1", <<"x">>, X)
+    [] name = "string1" -> Ref("string", 1)
     (* other arities, for fn:apply *)
     [] name = "k7" -> Fun("A0", <<>>, Lit(7))
     [] name = "f3" -> Fun("A3", <<"a", "b", "c">>, Op("+", Op("*", Op("+", Op("*", A, Lit(10)), Bv), Lit(10)), Var("c")))
@@ -93,7 +96,7 @@ AllNames == Unary \cup Preds \cup Binary \cup PairOnly \cup Keys \cup {"k7", "f3
 (* the function items of the catalog, evaluated once (a constant: TLC caches it) *)
 Names == {"dbl", "addk", "dup", "drop", "abs", "nestfold", "nesteach", "p7", "powp", "odd", "ltk", "any", "ltp",
           "sub", "shift", "snoc", "cons", "subk", "pow", "concat2", "negate", "mod2", "const", "modk",
-          "k7", "f3", "concat3", "str", "isint", "isbool", "tag"}
+          "k7", "f3", "concat3", "str", "isint", "isbool", "tag", "ident", "string1"}
 FV == [name \in Names |-> Eval(Fn(name), EmptyEnv)[1]]
 FnVal(name) == FV[name]
 Ints(ns) == [j \in 1..Len(ns) |-> I(ns[j])]
@@ -213,6 +216,52 @@ LawMixedKeys ==
   /\ {Ap1("tag", x) : x \in MixedItems} = {<<I(1)>>, <<I(2)>>, <<I(3)>>, <<I(4)>>}
   /\ Ap1("isbool", B(FALSE)) = <<B(TRUE)>> /\ Ap1("isbool", I(0)) = <<B(FALSE)>>
 LawsMixed == LawSortMixed /\ LawMixedKeys
+
+---------------------------------------------------------------------------
+(* THIRD MACHINE (SpecColl): the $collation argument of fn:sort, in the 2- and the 3-argument form.    *)
+(* Items: the mixed-case strings "b", "A", "a", "B".  Collations (F&O 3.1 5.3.2 - 5.3.4):              *)
+(*   "none"  the empty sequence / argument absent  -> default = Unicode codepoint collation            *)
+(*   "cp"    .../collation/codepoint               A < B < a < b                                       *)
+(*   "ci"    .../collation/html-ascii-case-insensitive   A = a < B = b; ties keep the input order      *)
+(*   "bad"   an unsupported URI                    -> FOCH0002 (judged for two or more items only:     *)
+(*           with less there is nothing to compare and raising is implementation-dependent)            *)
+(* Keys: "nokey" (argument absent), the identity function, string#1.                                   *)
+Words == {"b", "A", "a", "B"}
+Colls == {"none", "cp", "ci", "bad"}
+CollKeys == {"nokey", "ident", "string1"}
+CpRank(x) == CASE x = "A" -> 0 [] x = "B" -> 1 [] x = "a" -> 2 [] x = "b" -> 3
+CiRank(x) == CASE x \in {"A", "a"} -> 0 [] x \in {"B", "b"} -> 1
+CollRank(coll, x) == IF coll = "ci" THEN CiRank(x) ELSE CpRank(x)
+CKey(x, key) == StrOf(IF key = "nokey" THEN <<x>> ELSE Apply(FnVal(key), << <<x>> >>))
+RECURSIVE InsertC(_, _, _, _), SortC(_, _, _)
+InsertC(x, sorted, key, coll) ==
+  IF sorted = <<>> THEN <<x>>
+  ELSE IF CollRank(coll, CKey(Head(sorted), key)) <= CollRank(coll, CKey(x, key))
+       THEN <<Head(sorted)>> \o InsertC(x, Tail(sorted), key, coll)
+       ELSE <<x>> \o sorted
+SortC(s, key, coll) == IF s = <<>> THEN <<>>
+                       ELSE InsertC(s[Len(s)], SortC(SubSeq(s, 1, Len(s) - 1), key, coll), key, coll)
+AllStr(v) == \A j \in 1..Len(v) : Has(v[j], "s")
+InitColl == acc \in UNION {[1..k -> {S(w) : w \in Words}] : k \in 0..MaxLen}
+SortCollA(coll, key) ==
+  /\ Deeper /\ AllStr(acc) /\ coll \in Colls /\ key \in CollKeys
+  /\ (coll = "bad" => Len(acc) >= 2)
+  /\ acc' = IF coll = "bad" THEN <<[err |-> "FOCH0002"]>> ELSE SortC(acc, key, coll)
+NextColl == \E coll \in Colls, key \in CollKeys : SortCollA(coll, key)
+SpecColl == InitColl /\ [][NextColl]_vars
+IsCollPerm(p, key, coll) ==
+  \A i, j \in 1..Len(acc) : i < j =>
+     \/ CollRank(coll, CKey(acc[p[i]], key)) < CollRank(coll, CKey(acc[p[j]], key))
+     \/ (CollRank(coll, CKey(acc[p[i]], key)) = CollRank(coll, CKey(acc[p[j]], key)) /\ p[i] < p[j])
+LawsColl ==
+  (AllStr(acc) /\ Len(acc) <= 4) => \A coll \in {"none", "cp", "ci"}, key \in CollKeys :
+    LET ps == {p \in Permutations(1..Len(acc)) : IsCollPerm(p, key, coll)}
+        r == SortC(acc, key, coll) IN
+    /\ Cardinality(ps) = 1                                   \* THE stable ordered permutation
+    /\ \A p \in ps : r = [i \in 1..Len(acc) |-> acc[p[i]]]
+    /\ r = SortC(acc, "nokey", coll)                         \* an identity key changes nothing
+    /\ (coll = "none" => r = SortC(acc, key, "cp"))          \* the default collation is the codepoint collation
+    /\ (coll = "ci" => \A i \in 1..(Len(r) - 1) : CiRank(r[i].s) <= CiRank(r[i + 1].s))
 
 (* apply($f, [a, b, ..]) = $f(a, b, ..) *)
 LawApply ==
